@@ -35,7 +35,7 @@ fn mentions(e: &Ev, v: &ScVal) -> bool {
 }
 
 pub fn run(ctx: &Ctx, rep: &mut Report) {
-    let total = ctx.universes(240, 12000);
+    let total = ctx.universes(1440, 80000);
     for uni in ctx.my_universes(total) {
         let mut rng = ctx.rng_for(uni);
         rep.begin_universe(uni);
